@@ -171,6 +171,20 @@ func (c *Ctx) genC09() {
 	c.c09Fingerprint()
 	c.c09Resolver()
 	c.c09KeyDescriptors()
+	// artifact resolution over HTTP that *succeeds* while the transport misbehaves at the very end (the reply body reads to EOF,
+	// then fails to close): still a result or an error, the assertion nil exactly when the error is not
+	artifactCloseFail = true
+	for _, asig := range []string{"idp", "none"} {
+		for _, rsig := range []string{"idp", "none"} {
+			cfg := baseCfg()
+			r := baseResp(cfg, now)
+			r.Sig = rsig
+			k := artCase{cfg: cfg, now: now, ids: []string{"id-req1"}, irtMode: "match", ii: now - 500, issuer: sp(cfg.IDPEntity), status: cfg.Success, sig: asig, resp: &r, respCount: 1}
+			c.count("c09-artifact-close-fails", asig+"/"+rsig)
+			c.runArtifact(k, true)
+		}
+	}
+	artifactCloseFail = false
 }
 
 // withTimeout runs f and reports a hang
